@@ -6,6 +6,8 @@ require github.com/lidofinance/dc4bc v0.0.0
 
 require (
 	github.com/ferranbt/fastssz v0.1.1 // indirect
+	github.com/google/uuid v1.3.0 // indirect
+	github.com/juju/fslock v0.0.0-20160525022230-4d5c94c67b4b // indirect
 	github.com/klauspost/cpuid/v2 v2.2.1 // indirect
 	github.com/minio/sha256-simd v1.0.0 // indirect
 	github.com/mitchellh/mapstructure v1.4.2 // indirect
